@@ -30,7 +30,7 @@ def _one(args):
     except Exception as e:
         return prop, patch, "ERR", ["%s: %s" % (type(e).__name__, str(e)[:200])]
     keys = _keys(ctx)
-    und = sorted("%s %s" % (r.get("rule"), r.get("site")) for r in ctx.records if r["status"] == "undecided")
+    und = sorted("%s %s %s" % (r.get("rule"), r.get("site"), (r.get("detail") or "")[:80] if r.get("rule") == "ANCHOR" else "") for r in ctx.records if r["status"] == "undecided")
     ff = ["floor %s %s measured=%s<%s" % (f[0], f[1], f[2], f[3]) for f in ctx.floors if f[2] < f[3]]
     if patch is None:
         return prop, patch, "BASE", sorted(keys)
